@@ -198,6 +198,25 @@ def write_replay(prop: str, payload: dict) -> str:
     return str(path.relative_to(VERIF))
 
 
+def coqchk_property(prop: str) -> dict:
+    """Independent re-check of properties/<prop>.vo and everything it depends on with coqchk;
+    `-o` prints the context summary (axioms, type-in-type, unsafe fixpoints, assumed positivity)."""
+    cmd = ["timeout", "3000", "coqchk", "-o", "-silent", "-Q", "model", "D2P", "-Q", "gen", "D2P",
+           "-Q", "proofs", "D2P", "-Q", "properties", "D2P", f"D2P.{prop}"]
+    p = subprocess.run(cmd, cwd=COQ, capture_output=True, text=True)
+    out = p.stdout + p.stderr
+    summary = {}
+    for key, pat in (("axioms", r"\* Axioms:(.*?)(?=\n\* |\Z)"),
+                     ("type_in_type", r"relying on type-in-type:(.*?)(?=\n\* |\Z)"),
+                     ("unsafe_fixpoints", r"relying on unsafe \(co\)fixpoints:(.*?)(?=\n\* |\Z)"),
+                     ("assumed_positivity", r"positivity is assumed:(.*?)(?=\n\* |\Z)")):
+        m = re.search(pat, out, flags=re.S)
+        summary[key] = " ".join(m.group(1).split()) if m else "?"
+    ok = p.returncode == 0 and all(v == "<none>" for v in summary.values())
+    return {"ok": ok, "rc": p.returncode, "cmd": "cd /verif/coq && " + " ".join(cmd), **summary,
+            "tail": "" if ok else out[-600:]}
+
+
 # ------------------------------------------------------------------ evidence
 def write_evidence(prop: str, tier: str, seed: int, t0: float, comp: dict | None, run: dict,
                    violations: int, extra: dict | None = None):
